@@ -43,6 +43,14 @@ def make_ao_class(rec):
       p = {"kind": kind, "id": e.payload, "sig": e.signal_name, "tid": s.current.tid,
            "thread": s.current.name, "inv": s.steps, "now": s.now, "ao": key_of(self), "ret": None}
       rec.posts.append(p)
+      slow = getattr(rec, "slow_post", None)
+      if slow:
+        # a posting that takes (virtual) time, e.g. a user's override that does slow work first
+        nth = sum(1 for q in rec.posts if q["id"] == p["id"] and q["sig"] == p["sig"]) - 1
+        d = slow.get((p["sig"], p["id"], nth))
+        if d:
+          import miros.activeobject as ao_
+          ao_.time.sleep(d)
       try:
         return fn()
       finally:
